@@ -170,6 +170,7 @@ func newGateway(ch *chain, n int) (*gateway, error) {
 
 	// the provider's own server certificate (clients here do not verify it; the property is about the other side)
 	w, _ := newWorld(0, -1-n)
+	w.noEdges = true // the server certificate must outlive the run (a client does not resume a session whose server certificate expired)
 	key, err := ecdsa.GenerateKey(elliptic.P256(), rand.Reader)
 	if err != nil {
 		return nil, err
@@ -204,6 +205,10 @@ type client struct {
 	mu   sync.Mutex
 	last string // local address of the most recently dialled connection
 }
+
+// useH2 makes the plain HTTP routes of this client speak HTTP/2 (the server offers it: http.Server.ServeTLS);
+// the akash client itself speaks HTTP/1.1. Websocket routes are always HTTP/1.1.
+func (c *client) useH2() { c.tr.ForceAttemptHTTP2 = true }
 
 func (g *gateway) newClient(chain [][]byte, priv *ecdsa.PrivateKey, keepAlive bool, cache tls.ClientSessionCache) *client {
 	c := &client{g: g}
@@ -453,6 +458,9 @@ func (g *gateway) runSession(ch *chain, seed int64, n int, in In, ri rawIn, emit
 	g.vpc(chain, &probe)
 	c := g.newClient(chain, priv, true, nil)
 	defer c.close()
+	if n%2 == 0 {
+		c.useH2() // free-running: half of the sessions multiplex their plain requests over one HTTP/2 connection
+	}
 	for k, p := range in.Paths {
 		out := Out{Kind: "case", I: in.I + k, Cert: ri.Cert, Reg: ri.Reg, Path: ri.Paths[k], Served: []Call{}, Session: n,
 			Vpc: probe.Vpc, VpcErr: probe.VpcErr}
